@@ -4,7 +4,7 @@
    (model/TypedValue.v, tied by differential runs).  Only statements; proofs in proofs/TypedValueProofs.v. *)
 From Coq Require Import List ZArith Bool.
 From Basyx Require Import model.ConstraintsBase model.TypedBase gen.Gen_IntRanges gen.Gen_TypedValues model.TypedValue
-  proofs.TypedValueProofs.
+  gen.Gen_TypedSetters proofs.TypedValueProofs.
 Import ListNotations.
 
 (* the source's class statements are the specified hierarchy; XSD_TYPE_NAMES names exactly the 31 data types *)
@@ -100,6 +100,29 @@ Theorem C02_tv_range_history : forall ops r, In (rtype r) spec_xsd_types -> Fora
   wf_range (rrun r ops) = true.
 Proof. exact rrun_wf. Qed.
 Print Assumptions C02_tv_range_history.
+
+(* the setters as translated from submodel.py / base.py on every run ARE the steps of the state machines above *)
+Theorem C02_tv_setters_property : forall h, hopt h = false ->
+  (forall v, hstep h (HSetValue v) = holder_of h (set_Property_value (htype h) (hval h) None v)) /\
+  (forall t, hstep h (HSetType t) = holder_of h (set_Property_value_type (htype h) (hval h) None t)) /\
+  (forall v, hstep h (HSetValue v) = holder_of h (set_Qualifier_value (htype h) (hval h) None v)) /\
+  (forall t, hstep h (HSetType t) = holder_of h (set_Qualifier_value_type (htype h) (hval h) None t)).
+Proof.
+  intros h Ho. repeat split; intros;
+    first [exact (gen_property_value h _ Ho) | exact (gen_property_value_type h _ Ho)].
+Qed.
+Print Assumptions C02_tv_setters_property.
+Theorem C02_tv_setters_extension : forall h, hopt h = true ->
+  (forall v, hstep h (HSetValue v) = holder_of h (set_Extension_value (htype h) (hval h) None v)) /\
+  (forall t, hstep h (HSetType t) = holder_of h (set_Extension_value_type (htype h) (hval h) None t)).
+Proof. intros h Ho. split; intros; [exact (gen_extension_value h _ Ho) | exact (gen_extension_value_type h _ Ho)]. Qed.
+Print Assumptions C02_tv_setters_extension.
+Theorem C02_tv_setters_range : forall r,
+  (forall v, range_of r (set_Range_min (Some (rtype r)) (rmin r) (rmax r) v) = Some (rstep r (RSetMin v))) /\
+  (forall v, range_of r (set_Range_max (Some (rtype r)) (rmin r) (rmax r) v) = Some (rstep r (RSetMax v))) /\
+  (forall t, range_of r (set_Range_value_type (Some (rtype r)) (rmin r) (rmax r) (Some t)) = Some (rstep r (RSetType t))).
+Proof. intros r. repeat split; intros; [apply gen_range_min | apply gen_range_max | apply gen_range_value_type]. Qed.
+Print Assumptions C02_tv_setters_range.
 
 Theorem C02_tv_example :
   class_inv ex_v = true /\
